@@ -17,6 +17,9 @@ from vlib import *
 from props.lefcommon import *
 
 HARNESS_BINS = ["c04"]
+PROOF_FILES = ["Lef/LefRoundtrip_proofs.v", "Lef/LefRtLex_proofs.v", "Lef/LefRtDec_proofs.v", "Lef/LefRtPerm_proofs.v", "Lef/LefRtFrame_proofs.v",
+               "Lef/LefRtConstr_proofs.v", "Lef/LefRtPin_proofs.v", "Lef/LefRtVia_proofs.v", "Lef/LefRtSiteUnits_proofs.v", "Lef/LefRtMacro_proofs.v",
+               "Lef/LefRtLib_proofs.v", "Lef/LefRtRender_proofs.v", "Lef/LefRtTop_proofs.v"]
 
 # ------------------------------------------------------------------ smallest values and one-step enrichments
 def _name(rec, field):
@@ -295,7 +298,7 @@ def nontrivial(c):
     return c["lib"] != minimal_lib() and bool(c.get("src"))
 
 def run(chk, replay=None):
-    chk.proof_leg(["Lef/LefCheck.vo"], "Properties/C04.v", ["Lef/LefRoundtrip_proofs.v"], "Properties.C04")
+    chk.proof_leg(["Lef/LefCheck.vo"], "Properties/C04.v", PROOF_FILES, "Properties.C04")
     chk.assumptions += [
         "rust_decimal's Decimal::from_str / PartialEq are an external library: specified in Lef/LefDec.v from its source (dec_of_bytes, dec_eq) and validated by the correspondence",
         "derive_builder `build()` is modelled by its documented behaviour (last setter wins, a missing required field is an error)",
